@@ -604,6 +604,61 @@ func checkC12(p *Prog, r *Report) {
 		r.Check(okRead, "readPacket only dequeues", p.Pos(f.Body.Pos()), "no store into the insertion end, no linking", why+": a datagram put back by the reader lands behind newer ones and the connection no longer delivers in arrival order")
 	}
 
+	// ---- R12.11 table entries are selected by their exact key --------------------------------------------------
+	r.Rule("R12.11", "An entry of a per-ufrag connection table (map[string]*udpMuxedConn) is selected by its exact key only: code that walks a table and decides on the key compares it by == / != (or uses it as a key again), never by a partial match (strings.HasPrefix, Contains, …) or an ordering — keys are ufrag or ufrag+URL without a separator, so a partial match confuses one user's entries with another's.", 1)
+	{
+		n := 0
+		for _, f := range p.AllFuncs {
+			if f.Pkg != p.Ice || f.Body == nil {
+				continue
+			}
+			f := f
+			walkBody(f, func(x ast.Node) bool {
+				rs, ok := x.(*ast.RangeStmt)
+				if !ok || typeStr(p.TypeOf(rs.X)) != "map[string]*ice.udpMuxedConn" {
+					return true
+				}
+				n++
+				kid, ok := rs.Key.(*ast.Ident)
+				if !ok || kid.Name == "_" {
+					r.OK("table walk in "+f.Name, p.Pos(rs.Pos()), "the key is not used")
+					return true
+				}
+				key := p.ObjOf(kid)
+				bad := ""
+				ast.Inspect(rs.Body, func(y ast.Node) bool {
+					switch z := y.(type) {
+					case *ast.CallExpr:
+						if nm := p.CalleeName(z); strings.HasPrefix(nm, "strings.") || strings.HasPrefix(nm, "bytes.") || strings.HasPrefix(nm, "regexp.") {
+							for _, a := range z.Args {
+								if p.mentionsObj(a, key) {
+									bad = nm + " at " + p.Pos(z.Pos())
+								}
+							}
+						}
+					case *ast.BinaryExpr:
+						switch z.Op {
+						case token.LSS, token.GTR, token.LEQ, token.GEQ:
+							if p.mentionsObj(z.X, key) || p.mentionsObj(z.Y, key) {
+								bad = "an ordering comparison at " + p.Pos(z.Pos())
+							}
+						}
+					case *ast.SliceExpr:
+						if p.mentionsObj(z.X, key) {
+							bad = "a substring of the key at " + p.Pos(z.Pos())
+						}
+					}
+					return true
+				})
+				r.Check(bad == "", "table walk in "+f.Name+" selects by exact key", p.Pos(rs.Pos()), "== / != only", "entries are selected through "+bad+": the keys are ufrag or ufrag+URL, so the entries of a user whose ufrag merely begins like (or contains) another's are removed, closed or redirected with it")
+				return true
+			})
+		}
+		if n == 0 {
+			r.Fail("walks over a per-ufrag table", "udp_mux.go", "no loop over a per-ufrag connection table found (rule instance lost)")
+		}
+	}
+
 	// ---- R12.10 the reply can be routed before it can arrive ----------------------------------------------
 	r.Rule("R12.10", "A connection registers the destination address with the mux before it hands the datagram to the socket (both write paths): a reply that arrives while the write is still returning is already routed to the writer, not to the address's previous owner.", 2)
 	for _, wn := range []string{"udpMuxedConn.WriteTo", "udpMuxedConn.WriteToAddrPort"} {
